@@ -39,6 +39,7 @@ import (
 	"github.com/99designs/gqlgen/graphql/handler/lru"
 	"github.com/99designs/gqlgen/graphql/handler/transport"
 	"github.com/vektah/gqlparser/v2/ast"
+	"github.com/vektah/gqlparser/v2/gqlerror"
 
 	"verif/internal/ev"
 	"verif/internal/sjson"
@@ -70,7 +71,7 @@ func cloneHeaders(h map[string][]string) map[string][]string {
 	return out
 }
 
-func buildServer(rh0 rhSetting, order []string) *handler.Server {
+func buildServer(rh0 rhSetting, order []string, pres int) *handler.Server {
 	es := tx.NewExecutableSchema(tx.Config{Resolvers: txharness.Stub()})
 	srv := handler.New(es)
 	for _, n := range order {
@@ -102,6 +103,12 @@ func buildServer(rh0 rhSetting, order []string) *handler.Server {
 	srv.Use(extension.Introspection{})
 	srv.Use(extension.AutomaticPersistedQuery{Cache: lru.New[string](4096)})
 	srv.SetRecoverFunc(txharness.RecoverFunc)
+	if pres == 1 {
+		srv.SetErrorPresenter(func(ctx context.Context, err error) *gqlerror.Error {
+			e := graphql.DefaultErrorPresenter(ctx, err)
+			return &gqlerror.Error{Message: "masked: " + e.Message, Path: e.Path}
+		})
+	}
 	return srv
 }
 
@@ -247,10 +254,17 @@ type kase struct {
 	RH     int       `json:"response_headers_index"`
 	Order  int       `json:"transport_order_index"`
 	APQ    string    `json:"apq"`
+	// Pres: 0 = default error presenter, 1 = a presenter that replaces every error by a fresh,
+	// sanitised one (no extensions), as services that hide internals do
+	Pres int `json:"presenter_index"`
 }
 
 func (c *kase) key() string {
-	return fmt.Sprintf("%s|%s|%s|a%d|h%d|o%d|%s", c.Doc.ID, c.OpName, c.Enc, c.Accept, c.RH, c.Order, c.APQ)
+	k := fmt.Sprintf("%s|%s|%s|a%d|h%d|o%d|%s", c.Doc.ID, c.OpName, c.Enc, c.Accept, c.RH, c.Order, c.APQ)
+	if c.Pres != 0 {
+		k += fmt.Sprintf("|p%d", c.Pres)
+	}
+	return k
 }
 
 var productEncodings = []string{"get", "post-json", "graphql-raw", "form-json", "form-raw", "form-kv", "multipart"}
@@ -274,6 +288,9 @@ func allCases() []*kase {
 								c := &kase{Doc: d, OpName: name, Enc: enc, Accept: a, RH: h, Order: o, APQ: apq}
 								if encodable(c) {
 									out = append(out, c)
+									cp := *c
+									cp.Pres = 1
+									out = append(out, &cp)
 								}
 							}
 						}
@@ -512,7 +529,7 @@ func pick(seed int64, key string) uint64 {
 
 func main() {
 	rep := ev.New("C09", "exploration")
-	rep.Rule = "cases = product of (document of 1-3 operations over query/mutation/subscription with distinct root fields, plus anonymous and invalid documents) x operationName (absent, each name, unknown) x 7 request encodings x 9 Accept values x 5 ResponseHeaders settings x 3 transport registration orders x APQ mode (inline, register, hash-only); every case is judged against the specification function. A case is non-trivial when it is not the plain single-query/no-Accept/no-ResponseHeaders request, i.e. it exercises operation selection, GET refusal, an invalid document, negotiation or configured headers; distinct = distinct case keys among those"
+	rep.Rule = "cases = product of (document of 1-3 operations over query/mutation/subscription with distinct root fields, plus anonymous and invalid documents) x operationName (absent, each name, unknown) x 7 request encodings x 9 Accept values x 5 ResponseHeaders settings x 3 transport registration orders x 2 error presenters (default, sanitising) x APQ mode (inline, register, hash-only); every case is judged against the specification function. A case is non-trivial when it is not the plain single-query/no-Accept/no-ResponseHeaders request, i.e. it exercises operation selection, GET refusal, an invalid document, negotiation or configured headers; distinct = distinct case keys among those"
 	rep.Assumptions = []string{
 		"specification function written from the property text, the GraphQL-over-HTTP draft and the transports' doc comments; media types compared without parameters; where the draft leaves a choice (no Accept header, */*, nothing acceptable) every permitted answer is accepted",
 		"client-error status: 422 for application/json, 400 for application/graphql-response+json (property statement); the refusal of a non-query over GET may use any 4xx (the draft says 405, gqlgen answers 406; the property only says 'refused')",
@@ -541,10 +558,12 @@ func main() {
 	rep.Set("response_header_settings", rhNames())
 	rep.Set("transport_orders", transportOrders)
 
-	servers := map[[2]int]*handler.Server{}
+	servers := map[[3]int]*handler.Server{}
 	for h := range rhSettings {
 		for o := range transportOrders {
-			servers[[2]int{h, o}] = buildServer(rhSettings[h], transportOrders[o])
+			for pr := 0; pr < 2; pr++ {
+				servers[[3]int{h, o, pr}] = buildServer(rhSettings[h], transportOrders[o], pr)
+			}
 		}
 	}
 	// prime every server's APQ cache so that hash-only cases are independent of case order
@@ -571,7 +590,7 @@ func main() {
 				}
 				c := cases[i]
 				e := spec(c)
-				o := run(servers[[2]int{c.RH, c.Order}], c)
+				o := run(servers[[3]int{c.RH, c.Order, c.Pres}], c)
 				evals.Add(1)
 				account(rep, c, e, o)
 				for _, p := range judge(c, e, o) {
@@ -648,6 +667,7 @@ func doReplay(rep *ev.Reporter, path string, cases []*kase) int {
 				RH     int    `json:"response_headers_index"`
 				Order  int    `json:"transport_order_index"`
 				APQ    string `json:"apq"`
+				Pres   int    `json:"presenter_index"`
 			} `json:"case"`
 		} `json:"detail"`
 	}
@@ -657,8 +677,8 @@ func doReplay(rep *ev.Reporter, path string, cases []*kase) int {
 	}
 	k := f.Detail.Case
 	for _, c := range cases {
-		if c.Doc.ID == k.Doc.ID && c.OpName == k.OpName && c.Enc == k.Enc && c.Accept == k.Accept && c.RH == k.RH && c.Order == k.Order && c.APQ == k.APQ {
-			srv := buildServer(rhSettings[c.RH], transportOrders[c.Order])
+		if c.Doc.ID == k.Doc.ID && c.OpName == k.OpName && c.Enc == k.Enc && c.Accept == k.Accept && c.RH == k.RH && c.Order == k.Order && c.APQ == k.APQ && c.Pres == k.Pres {
+			srv := buildServer(rhSettings[c.RH], transportOrders[c.Order], c.Pres)
 			if c.APQ == "hash-only" {
 				run(srv, &kase{Doc: c.Doc, Enc: "post-json", APQ: "register"})
 			}
